@@ -13,6 +13,8 @@ GENERATORS = [
     ("C07", "slice_run_tail.py", ["{S}/session.rs", "{H}/run_tail_slice.rs", "{H}/run_prompt_arm_slice.rs", "{S}/server.rs", "{H}/post_message_slice.rs"]),
     ("C12", "slice_apply_patch.py", ["{R}/crates/rip-workspace/src/lib.rs", "{R}/crates/rip-workspace/src/patch.rs", "{H}/apply_patch_slice.rs", "{H}/hunk_loop_slice.rs"]),
     ("C16", "slice_agent_loop.py", ["{S}/session.rs", "{H}/agent_loop_slice.rs", "{H}/request_gate_slice.rs"]),
+    ("C19", "slice_agent_loop.py", ["{S}/session.rs", "{H}/agent_loop_slice.rs", "{H}/request_gate_slice.rs"]),
+    ("C19", "slice_doctor.py", ["{S}/server.rs", "{H}/doctor_summary_slice.rs"]),
 ]
 
 
